@@ -59,6 +59,9 @@ type dLog struct {
 	Interval string
 	Roots    string
 	Answer   string // "sct" or "err"
+	// RootsFirst != "": roots are refreshed twice; the first get-roots call is answered as RootsFirst,
+	// the second as Roots. What the distributor knows is what the latest refresh told it.
+	RootsFirst string
 }
 
 func (l dLog) String() string {
@@ -66,7 +69,11 @@ func (l dLog) String() string {
 	if l.Google {
 		op = "google"
 	}
-	return fmt.Sprintf("%s(%s,%s,interval=%s,roots=%s,%s)", l.URL, op, l.Status, l.Interval, l.Roots, l.Answer)
+	ro := l.Roots
+	if l.RootsFirst != "" {
+		ro = l.RootsFirst + "-then-" + l.Roots
+	}
+	return fmt.Sprintf("%s(%s,%s,interval=%s,roots=%s,%s)", l.URL, op, l.Status, l.Interval, ro, l.Answer)
 }
 
 // dLife is one certificate validity.
@@ -301,8 +308,13 @@ func (c *dClient) AddPreChain(ctx context.Context, chain []ct.ASN1Cert) (*ct.Sig
 func (c *dClient) GetAcceptedRoots(ctx context.Context) ([]ct.ASN1Cert, error) {
 	c.rec.mu.Lock()
 	c.rec.rootsQ[c.l.URL]++
+	nth := c.rec.rootsQ[c.l.URL]
 	c.rec.mu.Unlock()
-	switch c.l.Roots {
+	kind := c.l.Roots
+	if c.l.RootsFirst != "" && nth == 1 {
+		kind = c.l.RootsFirst
+	}
+	switch kind {
 	case "unknown":
 		return nil, errors.New("get-roots unavailable")
 	case "include":
@@ -519,6 +531,12 @@ func dExec(c dCase) (res dResult) {
 	defer cancel()
 	if c.Refresh {
 		d.RefreshRoots(ctx) // per-log failures are part of the script
+		for _, l := range c.Logs {
+			if l.RootsFirst != "" {
+				d.RefreshRoots(ctx) // a later refresh: its results replace the earlier ones
+				break
+			}
+		}
 	}
 	done := make(chan struct{})
 	go func() {
@@ -871,6 +889,18 @@ func dCases(thorough bool) []dCase {
 				for _, wr := range bools {
 					out = append(out, dCase{Family: "roots", Policy: pol, Logs: logs, Life: li, Pre: pre, WithRoot: wr, AsPre: pre, Refresh: true})
 				}
+			}
+		}
+		// roots refreshed twice: what counts is the latest refresh (a log whose get-roots fails now is of
+		// unknown compatibility again, whatever an earlier refresh said)
+		for _, first := range []string{"include", "exclude"} {
+			for i := 0; i < enum.Size(dims); i++ {
+				idx := enum.Decode(i, dims, nil)
+				logs := append([]dLog{}, base...)
+				for j := range logs {
+					logs[j].RootsFirst, logs[j].Roots = first, rootKinds[idx[j]]
+				}
+				out = append(out, dCase{Family: "roots/refreshed-twice", Policy: pol, Logs: logs, Life: li, WithRoot: i%2 == 0, Refresh: true})
 			}
 		}
 		// roots never refreshed: nothing is known about any log
